@@ -28,6 +28,7 @@ from .sim import Sim, default_config, parse_reply
 from . import canon as C
 from . import check_coord as CC
 from . import check_world as CW
+from .worldgen import world_step
 
 SCEN_START = {"scenario1_small": ["213.47.23.195", "192.168.2.2"], "scenario1": ["213.47.23.195", "192.168.2.2", "192.168.2.4"],
               "three_nets": ["213.47.23.195", "192.168.2.2", "192.168.3.2"]}
@@ -275,7 +276,7 @@ def run_one(drv, rng, V, stats, scenario, n_resets, wseed):
                 for _ in range(12):
                     act = g.action(v, singling=0.2)
                     try:
-                        nv = co._execute_action(v, act)
+                        nv = world_step(co, v, act)
                     except Exception:
                         break
                     m = drv.ask({"op": "step", "view": C.view2j(v), "action": C.action2j(act)})
@@ -286,6 +287,11 @@ def run_one(drv, rng, V, stats, scenario, n_resets, wseed):
                     v = nv
     finally:
         sim.close()
+
+
+# generated scenarios on which a re-labelling once failed (kept as a corpus that runs first)
+GENERATED_CORPUS = [(439108476, 1),      # 192.168.1.0/26 + 192.168.2.0/23: the /23 was moved to an address that is not a multiple of its size (fixed in 9086a03)
+                    (439108476, 42), (439108476, 7)]
 
 
 def run_generated(rng, V, stats, n_scenarios, n_resets):
@@ -300,12 +306,13 @@ def run_generated(rng, V, stats, n_scenarios, n_resets):
     orig_exit = builtins.exit
     builtins.exit = no_exit
     try:
-        for i in range(n_scenarios):
-            s = rng.randrange(1 << 30)
+        for i in range(len(GENERATED_CORPUS) + n_scenarios):
+            # past failures first: (scenario seed, world seed)
+            s, ws = GENERATED_CORPUS[i] if i < len(GENERATED_CORPUS) else (rng.randrange(1 << 30), rng.choice([42, 1, 7]))
             objs = gen_scenario(random.Random(s), one_spelling=True)
-            rep = {"kind": "generated", "scenario_seed": s}
+            rep = {"kind": "generated", "scenario_seed": s, "world_seed": ws}
             try:
-                w = make_world(objects=objs, dynamic=True, seed=rng.choice([42, 1, 7]))
+                w = make_world(objects=objs, dynamic=True, seed=ws)
             except Exception as e:
                 continue
             if not w._ip_to_hostname:
@@ -364,6 +371,7 @@ def main(tier):
                         V.fail("coord:" + sig, desc, rep)
                 cstats = {"focus": "C13"}
                 CC.directed_races(drv, rng, info["tables"]["defender"], cfail, cstats, 24 if tier == "quick" else 300)
+                CC.directed_late_joiner(drv, rng, info["tables"]["defender"], cfail, cstats, 10 if tier == "quick" else 150)
                 CC.run_sessions(drv, rng, info["tables"]["defender"], cfail, cstats, 30 if tier == "quick" else 400, 40,
                                 {"burst": 0.25, "leave": 0.06, "bad": 0.01, "early_reset": 0.15, "force_env": {"use_dynamic_addresses": True}})
                 stats["coordinator_events"] = cstats.get("events", 0)
